@@ -500,6 +500,8 @@ pub fn run(ctx: &Ctx) -> EvidenceMeta {
         .collect();
     ctx.enumerate("fixed", &fixed, test);
     ctx.proptest("generated", ctx.n(60_000, 3_000_000), || case_strategy(2), test);
+    ctx.bytes_check("raw-bytes", |d, st| test(&raw_case(d, false), st));
+    ctx.bytes_check("raw-repaired", |d, st| test(&raw_case(d, true), st));
     EvidenceMeta {
         rule: "inputs: raw bytes in length classes {0..4, 5..19, 20..64, 65..2000, 65500..65600, 70000}, grammar-generated wire messages and \
                reference-serialised builder programs (2% with 65 400..65 532-byte bodies ending in integrity attributes) with 0..3 byte \
@@ -518,7 +520,27 @@ pub fn run(ctx: &Ctx) -> EvidenceMeta {
     }
 }
 
-pub fn replay(_check: &str, case: &Value, st: &mut Stats) -> Result<TestResult, String> {
+/// raw fuzz case: 4 bytes choose the supported / required type sets, the rest is the buffer (as
+/// it is, or repaired into a buffer with a valid header and tiling TLVs)
+fn raw_case(data: &[u8], repaired: bool) -> Case {
+    let (head, rest) = if data.len() >= 5 { data.split_at(5) } else { (&[0u8; 5][..], data) };
+    let bytes = if repaired { gen::repair_message(rest, head[4] & 1 == 0) } else { rest.to_vec() };
+    Case {
+        input: Input::Bytes(Hex(bytes)),
+        creds: if head[4] & 2 == 0 {
+            Creds::Short { password: "pw".into() }
+        } else {
+            Creds::Long { user: "u".into(), realm: "r".into(), password: "p".into() }
+        },
+        supported: vec![u16::from_be_bytes([head[0], head[1]]), 0x0006, 0x8022],
+        required: vec![u16::from_be_bytes([head[2], head[3]])],
+    }
+}
+
+pub fn replay(check: &str, case: &Value, st: &mut Stats) -> Result<TestResult, String> {
+    if check == "raw-bytes" || check == "raw-repaired" {
+        return Ok(test(&raw_case(&gen::raw_case_bytes(case)?, check == "raw-repaired"), st));
+    }
     let c: Case = parse_case(case)?;
     Ok(test(&c, st))
 }
